@@ -88,7 +88,9 @@ def drive_hop(kind, c, rng):
     nst, ndim = c["nst"], c["ndim"]
     H = np.diag(c["en"])
     dc = rand_antisym_dc(rng, nst, ndim)
-    dc[c["state"], c["target"]] = c["dir"]; dc[c["target"], c["state"]] = -np.array(c["dir"])
+    if kind != "afssh":
+        dc[c["state"], c["target"]] = c["dir"]; dc[c["target"], c["state"]] = -np.array(c["dir"])
+    # (A-FSSH rescales along its moment difference, set below; its derivative coupling stays an unrelated random vector)
     F = np.zeros((nst, ndim))
     elec = StubElec(H, dc, F)
     model = StubModel(c["mass"], nst, [elec])
